@@ -18,6 +18,9 @@ type Finding struct{ Class, Detail string }
 // per-message flags with the replies the server actually sent at end-of-data.
 func OracleC03(c *Case, r *Result) []Finding {
 	var out []Finding
+	if r.Deadlock {
+		out = append(out, Finding{"conc-deadlock", "a Send started from inside the body producer of another Send on the same Client did not return within 60 s"})
+	}
 	if r.Panic != "" {
 		out = append(out, Finding{"send-panic-" + r.PanicWhere, fmt.Sprintf("Send panicked: %s", r.Panic)})
 	}
@@ -95,7 +98,7 @@ func OracleC03(c *Case, r *Result) []Finding {
 				out = append(out, Finding{"render-failure-delivered", fmt.Sprintf("message %d: rendering fails but IsDelivered() = true", j)})
 			}
 			kind := r.RetKind
-			if c.Prog == "reset" && j >= c.Split() {
+			if c.TwoBatches() && j >= c.Split() {
 				kind = r.RetKind2
 			}
 			if !m.HasErr && kind != "conncheck" {
@@ -440,7 +443,7 @@ func OracleC20(c *Case, r *Result) []Finding {
 			out = append(out, Finding{"join-count-mismatch", fmt.Sprintf("%s: the connection check failed but %d messages carry a SendError", what, n)})
 		}
 	}
-	if c.Prog == "reset" {
+	if c.TwoBatches() {
 		n1, n2 := 0, 0
 		for j, m := range r.Msgs {
 			if m.HasErr {
@@ -457,7 +460,7 @@ func OracleC20(c *Case, r *Result) []Finding {
 		joinCheck(r.RetKind, r.Joined, nerr, "Send")
 	}
 	// the connection check in front of a batch and the QUIT: the kind of the returned error follows the reply
-	if c.Prog != "reset" {
+	if !c.TwoBatches() {
 		var noop1, quit *smtpx.Event
 		for i := range dlg {
 			e := &dlg[i]
